@@ -1713,6 +1713,7 @@ impl<'a> Interp<'a> {
                 self.viol("abandon-trace", "abandon-trace/tmp-left/end-of-run".to_string(), format!("temp files remain at the end of the run: {:?}", left));
             }
         }
+        self.check_targets_untouched("end-of-run");
         if !d.other.is_empty() {
             self.viol("format", "format/stray-files".to_string(), format!("unexpected files in the cache root: {:?}", d.other));
         }
